@@ -2,6 +2,7 @@
     Stdlib lists only. *)
 From Coq Require Import List NArith ZArith Bool Lia Permutation.
 From SK Require Import lib.Tok lib.LGraph model.C03_Model.
+From SK Require Export proof.C03_Spec.
 Import ListNotations.
 Local Open Scope Z_scope.
 
@@ -131,7 +132,6 @@ Proof.
 Qed.
 
 (** * The host lifted to an ITS *)
-Definition lift (o : Z) : iedge := (o, o, 0).
 Lemma adj_its_of_host host a b : adj (its_of_host host) a b = option_map lift (adj host a b).
 Proof. unfold adj, its_of_host; simpl. apply (find_edge_map lift). Qed.
 Lemma label_its_of_host host n : label (its_of_host host) n = option_map (fun t => IN t t 0 None) (label host n).
@@ -345,8 +345,6 @@ Proof.
 Qed.
 
 (** * Sums over node lists *)
-Definition sumL {V} (w : V -> Z) (l : list (N * V)) : Z := fold_right (fun p acc => w (snd p) + acc) 0 l.
-Definition sumZ (w : inode -> Z) (T : its) : Z := sumL w (gnodes T).
 Definition sumF (G : N -> Z) (l : list N) : Z := fold_right (fun p acc => G p + acc) 0 l.
 
 Lemma map_upd_notin {V} (l : list (N * V)) n (f : V -> V) :
@@ -466,12 +464,6 @@ Proof.
 Qed.
 
 (** * The glue theorems *)
-Definition bondG (T : its) (a b : N) : option Z :=
-  match adj T a b with Some x => if 0 <? eG x then Some (eG x) else None | None => None end.
-Definition bondH (T : its) (a b : N) : option Z :=
-  match adj T a b with Some x => if 0 <? eH x then Some (eH x) else None | None => None end.
-Definition dH (a : inode) : Z := a_hc (iH a) - a_hc (iG a).
-Definition dQ (a : inode) : Z := a_ch (iH a) - a_ch (iG a).
 
 Section Glue.
   Variables (host : hostg) (rc : its) (m : mapping) (T : its).
